@@ -75,7 +75,7 @@ def q(s):
     return '"%s"' % s
 
 
-def mc_files(tasks, bulks, cancels, ncores, devs=(), invariants=None):
+def mc_files(tasks, bulks, cancels, ncores, devs=(), invariants=None, live=False):
     def fn(f):
         return '[t \\in MCT |-> CASE ' + ' [] '.join('t = %s -> %s' % (q(t['uid']), f(t)) for t in tasks) + ']'
     sets = lambda ss: '<<' + ', '.join('{' + ', '.join(q(u) for u in s) + '}' for s in ss) + '>>'
@@ -87,9 +87,11 @@ def mc_files(tasks, bulks, cancels, ncores, devs=(), invariants=None):
            ' Cores <- MCCores\n NCores = %d\n Cancels <- MCCancels\n' % ncores)
     for d in DEVS:
         cfg += ' %s = %s\n' % (d, 'TRUE' if d in devs else 'FALSE')
-    cfg += 'SPECIFICATION Spec\nCHECK_DEADLOCK FALSE\n'
+    cfg += 'SPECIFICATION %s\nCHECK_DEADLOCK FALSE\n' % ('FairSpec' if live else 'Spec')
     for i in (INVARIANTS if invariants is None else invariants):
         cfg += 'INVARIANT %s\n' % i
+    if live:
+        cfg += 'PROPERTY LiveQuiet\nPROPERTY LiveFinal\n'
     return {'MCP.tla': mod, 'MCP.cfg': cfg}
 
 
@@ -175,6 +177,14 @@ def run(chk, tier, seed):
         if not res.ok:
             raise Machinery('Pipeline design model violates %s in %s:\n%s'
                             % (res.violated, name, res.trace[:3000]))
+        # liveness under fairness (C05: every task *reaches* a final state); quick: small graphs only
+        if pid == 'C05' and (not quick or res.distinct < 30000):
+            res = tlc.run('Pipeline', 'MCP', 'MCP.cfg', workers=16, timeout=1800,
+                          extra_files=mc_files(tasks, bulks, cancels, ncores, invariants=[], live=True))
+            chk.add_tlc(res, 'liveness:' + name)
+            if not res.ok:
+                raise Machinery('Pipeline design model violates %s in %s under fairness:\n%s'
+                                % (res.violated, name, res.trace[:3000]))
     chk.exhaustive = True
 
     if not quick:
@@ -187,6 +197,14 @@ def run(chk, tier, seed):
             if res.ok or res.violated != inv:
                 raise Machinery('deviation %s not detected (got %s)' % (dev, res.violated))
             chk.notes.append('deviation %s breaks %s in the design model' % (dev, res.violated))
+        # non-vacuity of the liveness property: leaked cores starve the next task
+        tasks = [T('t1', raises='exec', cores=2), T('t2', cores=2)]
+        res = tlc.run('Pipeline', 'MCP', 'MCP.cfg', workers=16, timeout=900,
+                      extra_files=mc_files(tasks, [['t1'], ['t2']], [], 2, devs=['DevExecRaiseNoRelease'],
+                                           invariants=[], live=True))
+        chk.add_tlc(res, 'deviation-liveness:DevExecRaiseNoRelease')
+        if res.ok or res.violated != 'LiveFinal':
+            raise Machinery('deviation DevExecRaiseNoRelease does not break LiveFinal (got %s)' % res.violated)
 
     jobs = []
     nsim = 25 if quick else 250
